@@ -103,7 +103,14 @@ def _body(r, ind: str):
             if r.random() < 0.1:
                 out.append("")
             t = r.random()
-            if t < 0.7:
+            if t < 0.08:      # a block scalar: blank and `#` lines inside it are content
+                out.append(f"{ind}{k}: {r.choice(['|', '>', '|-', '>-'])}")
+                for _ in range(r.randint(1, 3)):
+                    out.append(f"{ind}{ind}{r.choice(['free text', '# not a comment', 'a: b', 'x  y', '- item'])}")
+                    if r.random() < 0.2:
+                        out.append("")
+                out.append(f"{ind}{ind}end of text")
+            elif t < 0.7:
                 tail = "  # why" if r.random() < 0.1 else ""
                 out.append(f"{ind}{k}: {_scalar(r)}{tail}")
             elif t < 0.85:
@@ -128,6 +135,8 @@ def _body(r, ind: str):
 def _entry(r, key: str):
     ind = r.choice(["  ", "  ", "  ", "    "])
     t = r.random()
+    if t < 0.05:          # top-level block scalar
+        return [f"{key}: {r.choice(['|', '>', '|-'])}", f"{ind}some text", "", f"{ind}# kept as text", f"{ind}last line"]
     if t < 0.62:
         return [f"{key}:" + ("   " if r.random() < 0.05 else "")] + _body(r, ind)
     if t < 0.8:
@@ -172,12 +181,24 @@ def gen_block_doc(r):
         bounds.append(len(lines))
         if r.random() < 0.3:
             lines.append(f"# {k} settings")
-        e = _entry(r, k)
+        qk = k
+        if r.random() < 0.1:      # a quoted key is the same key to every YAML loader
+            qc = r.choice(['"', "'"])
+            qk = qc + k + qc
+        e = _entry(r, qk)
         start = len(lines)
         lines.extend(e)
-        for j in range(start + 1, len(lines)):
-            if lines[j].startswith((" ", "-")):
+        in_scalar, thr = False, 0
+        for j in range(start, len(lines)):
+            l = lines[j]
+            ind = len(l) - len(l.lstrip(" "))
+            if in_scalar and (not l.strip() or ind > thr):
+                continue                     # content of a block scalar: a column-0 comment here would end the scalar
+            in_scalar = False
+            if j > start and l.startswith((" ", "-")):
                 body_sites.append(j)
+            if l.rstrip().endswith(("|", ">", "|-", ">-", "|+")) and not l.lstrip().startswith("#"):
+                in_scalar, thr = True, ind
         for _ in range(r.choice([0, 1, 1, 2])):
             lines.append("")
     bounds.append(len(lines))
@@ -289,6 +310,57 @@ def gen_flow_doc(r):
     return "\n".join(lines) + ("\n" if r.random() < 0.8 else "")
 
 
+def gen_indented_doc(r):
+    """a block document whose root mapping is indented as a whole (valid YAML)"""
+    d = gen_block_doc(r)
+    n = r.choice([1, 2, 2, 4])
+    out = []
+    for l in d["lines"]:
+        if l == "---" or not l.strip():
+            out.append(l)
+        elif l.startswith("#"):
+            out.append(l if r.random() < 0.5 else " " * n + l)
+        else:
+            out.append(" " * n + l)
+    return finish_text(r, out)
+
+
+def gen_tail_scalar_doc(r):
+    """the file ENDS inside a block scalar whose value depends on the white space at the end of the file (keep chomping, or
+    trailing spaces on its last line): str.rstrip() of the old content changes that value"""
+    d = gen_block_doc(r)
+    lines = [l for l in d["lines"]]
+    while lines and not lines[-1].strip():
+        lines.pop()
+    key = r.choice(["notes", "custom_text", "banner"])
+    kind = r.choice(["keep", "keep", "spaces"])
+    if kind == "keep":
+        lines += [f"{key}: |+", "  kept text"] + [""] * r.choice([0, 2, 3])
+        return "\n".join(lines) + "\n"
+    lines += [f"{key}: |", "  text with trailing blanks   "]
+    return "\n".join(lines) + r.choice(["\n", ""])
+
+
+def last_line_in_block_scalar(text: str) -> bool:
+    """input class of finding eof_rstrip_changes_block_scalar: the last non-blank line of the file lies inside a block scalar"""
+    lines = text.split("\n")
+    opener = re.compile(r"(^|[\s:-])[|>][+-]?[1-9]?[+-]?\s*(#.*)?$")
+    inside, thr = False, 0
+    last = None
+    for l in lines:
+        if not l.strip():
+            continue
+        ind = len(l) - len(l.lstrip(" "))
+        if inside and ind > thr:
+            last = True
+            continue
+        inside = False
+        last = False
+        if not l.lstrip(" ").startswith("#") and opener.search(l.rstrip()):
+            inside, thr = True, ind
+    return bool(last)
+
+
 def gen_init_case(seed, i):
     r = rng_for(seed, PROP, "init", i)
     k = r.random()
@@ -299,9 +371,13 @@ def gen_init_case(seed, i):
         kind = "block"
     elif k < 0.8:
         text, marker, kind = gen_template_doc(r), "template", "template"
-    elif k < 0.92:
+    elif k < 0.89:
         text, marker, kind = gen_flow_doc(r), "none", "flow"
-    elif k < 0.96:
+    elif k < 0.915:
+        text, marker, kind = gen_indented_doc(r), "none", "indented"
+    elif k < 0.93:
+        text, marker, kind = gen_tail_scalar_doc(r), "none", "tail_scalar"
+    elif k < 0.965:
         text = r.choice(["", "\n", "# only a comment\n", "---\n", "# a\n\n# b\n"])
         marker, kind = "none", "empty"
     else:
@@ -351,11 +427,12 @@ def yroot(text):
 
 
 def is_flow(text):
+    """the root mapping is not a column-0 block mapping: flow style, or block style indented as a whole"""
     for l in text.split("\n"):
         s = l.strip()
         if not s or s.startswith("#") or s == "---":
             continue
-        return s.startswith("{")
+        return s.startswith("{") or l.startswith(" ")
     return False
 
 
@@ -945,8 +1022,8 @@ def run(tier: str, seed: int, replay: str | None = None) -> int:
     load_known_local(chk)
     chk.rule = (
         "init: seeded existing .thailint.yaml files (block documents with any subset of linter sections in hyphen/underscore spelling, extra keys, "
-        "comments, blank lines, `---`, inline/flow/block values, column-0 sequences, trailing-whitespace variants, the GLOBAL SETTINGS banner at an entry "
-        "boundary / at position 0 / inside an entry / mid-line / before `---` / as decoy; edited copies of generated files; flow-style roots; empty and "
+        "comments, blank lines, `---`, quoted keys, inline/flow/block values, block scalars (nested and top-level, with blank and `#` content lines; files ending inside a keep-chomped / space-ended block scalar), column-0 sequences, trailing-whitespace variants, the GLOBAL SETTINGS banner at an entry "
+        "boundary / at position 0 / inside an entry / mid-line / before `---` / as decoy; edited copies of generated files; flow-style roots; roots indented as a whole; empty and "
         "invalid files) x preset, `init-config --non-interactive` run twice; non-trivial = a valid file with at least one entry from which at least "
         "one section is missing.  hist: histories of 3-9 config set/get/reset commands on ./config.yaml (real CLI) or --config x.yaml / x.json over an absent / valid / "
         "invalid / hyphen-keyed file, values drawn per key from valid, invalid and re-typed texts, PLUS a deterministic boundary stream: for every validated key "
@@ -1163,6 +1240,11 @@ def decide_init(chk, case, res, ver, cands_all):
     #   model valid  => PyYAML valid;   model: outside the subset => PyYAML invalid;
     #   subset but re-combined entries: the parser decides, and when it rejects the file the other bits are not comparable
     pv, cv = pb[0], cb[0]
+    if (not pb[2]) and cb[2] and pb[:2] + pb[3:] == cb[:2] + cb[3:] and cand[0] and last_line_in_block_scalar(E):
+        # the model does not see white space inside block scalars (manifest: validated only); the failure is listed by input class
+        chk.known_finding("eof_rstrip_changes_block_scalar", {"preset": case["preset"], "existing": E, "violated": ["settings_in_effect"],
+                                                              "after_excerpt": R[:600]})
+        return cands_all
     mismatch = None
     if cv and not pv:
         mismatch = "model: result valid, PyYAML: invalid"
